@@ -135,6 +135,22 @@ fn one(ctx: &Ctx, rep: &mut Report, id: usize, cfg: Cfg, vc: ValueClass, pc: Pro
             Err(e) => rep.violation(&format!("C01 decode-refused {sig_cfg}"), &format!("honest proof does not decode: {e}"), replay.clone()),
         }
     }
+    // the convenience entry point that draws from the operating system's generator, and the proof's degree accessor
+    if id % 8 == 3 {
+        rep.count("os_rng_proofs", 1);
+        match no_panic(|| RangeProof::prove(&mut case.transcript(), &case.statement(), &case.witness())) {
+            Ok(Ok(po)) => {
+                if po.extension_degree() != case.params().extension_degree() || proof.extension_degree() != case.params().extension_degree() {
+                    rep.violation(&format!("C01 degree-accessor {sig_cfg}"), "the proof's extension degree accessor differs from the statement's degree", replay.clone());
+                }
+                if let Err(e) = no_panic(|| verify_one(&case.transcript(), &case.statement_public(), &po, VerifyAction::VerifyOnly)).and_then(|r| r.map(|_| ()).map_err(|e| e.to_string())) {
+                    rep.violation(&format!("C01 verify-rejected os-rng {sig_cfg}"), &format!("a proof made with the operating system's generator (RangeProof::prove) is rejected: {e}"), replay.clone());
+                }
+            },
+            Ok(Err(e)) => rep.violation(&format!("C01 prove-refused {sig_cfg}"), &format!("RangeProof::prove (operating system's generator) refused a valid witness: {e}"), replay.clone()),
+            Err(p) => rep.violation(&format!("C01 prove-panic {sig_cfg}"), &format!("RangeProof::prove panicked on a valid witness: {p}"), replay.clone()),
+        }
+    }
     // copies are the same objects: a statement / witness / proof copied with clone() or overwritten with clone_from()
     // (onto an object of another shape) proves and verifies like the original
     if id % 4 == 0 {
